@@ -52,6 +52,96 @@ def exclusive_region(b, tgt, others, stop):
     return r
 
 
+def _type_discr(b, bi):
+    """The family-type term a switch block decides on (None if it decides on something else)."""
+    si = b.switch_info(bi)
+    if not si:
+        return None
+    d = si[0]
+    if d[0] == "discr":
+        d = d[1]
+    d = peel(d)
+    return d if is_call(d, ["get_field_type", "MetricFamily::get_field_type", "field_type", "type_"]) else None
+
+
+def variant_region(b, f, sw, name, stop):
+    """Blocks executed for a family of type `name`: reachable from the type switch `sw` when every switch on the same family-type value (the first one and
+    any later `matches!(metric_type, ..)` / nested match) takes the edge of that variant.  Stops at `stop` (the per-sample loop header)."""
+    inv = {v: k for k, v in metric_type_table(f).items()}
+    val = inv.get(name)
+    d0 = _type_discr(b, sw)
+    stop = set(stop)
+
+    def taken(bi):
+        si = b.switch_info(bi)
+        for v, t in si[1]:
+            if v == val:
+                return [t]
+        return [si[2]]
+    def bool_taken(x, region):
+        """Edges of a switch on a bool local whose every definition is a literal (`matches!(..)` leaves such a flag): those of the literals assigned inside the region."""
+        si = b.switch_info(x)
+        d = si[0]
+        if not (isinstance(d, tuple) and d and d[0] == "var" and si[3] == "bool"):
+            return None
+        defs = b.defs().get(d[1], [])
+        if not defs or any(dd[0] != "assign" or dd[3].get("k") != "use" or dd[3]["ops"][0].get("val") not in ("true", "false") for dd in defs):
+            return None
+        vals = {1 if dd[3]["ops"][0]["val"] == "true" else 0 for dd in defs if dd[1] in region}
+        out = []
+        for v in vals:
+            hit = [t for vv, t in si[1] if vv == v]
+            out.append(hit[0] if hit else si[2])
+        return out
+    seen = set()
+    while True:
+        before = len(seen)
+        region = set(seen)
+        seen = set()
+        work = taken(sw)
+        while work:
+            x = work.pop()
+            if x in seen or x in stop:
+                continue
+            seen.add(x)
+            if b.blocks[x]["term"]["k"] == "switch" and _type_discr(b, x) == d0 and val is not None:
+                work.extend(taken(x))
+            elif b.blocks[x]["term"]["k"] == "switch" and bool_taken(x, region | seen) is not None:
+                work.extend(bool_taken(x, region | seen))
+            else:
+                work.extend(b.succs(x))
+        seen |= region
+        if len(seen) == before:
+            return seen
+
+
+def arm_regions(b, f, sw, arms, other, stop):
+    """{variant name: blocks that run only for families of that type}: the variant's region minus the regions of the variants that go to a different arm."""
+    names = list(metric_type_table(f).values())
+    si = b.switch_info(sw)
+    tgt = {n: arms.get(n, other) for n in names}
+    full = {n: variant_region(b, f, sw, n, stop) for n in names}
+    res = {}
+    for n in names:
+        r = set(full[n])
+        for m in names:
+            if m != n and tgt[m] != tgt[n]:
+                r -= full[m]
+        res[n] = r
+    return res
+
+
+def value_in_region(b, t, region):
+    """A value term as seen inside `region`: a local assigned on several paths is resolved to the one definition that lies in the region."""
+    t0 = peel(t, transparent=[])
+    if isinstance(t0, tuple) and t0 and t0[0] == "var":
+        alts = [b.term_rvalue(d[3], (d[1], d[2])) for d in b.defs().get(t0[1], []) if d[0] == "assign" and d[1] in region]
+        alts += [b.term_call(d[1]) for d in b.defs().get(t0[1], []) if d[0] == "call" and d[1] in region]
+        if len(alts) == 1:
+            return alts[0]
+    return t
+
+
 def rule_arm_payload(ctx, f, rid):
     ctx.rule(rid, "arm <-> payload agreement: in TextEncoder::encode_impl the arm of the family-type switch for COUNTER reads only get_counter, GAUGE only "
                   "get_gauge, HISTOGRAM only get_histogram, SUMMARY only get_summary; all five MetricType variants have an arm")
@@ -70,9 +160,9 @@ def rule_arm_payload(ctx, f, rid):
     # the metric loop header: next() over get_metric(fam)
     mnext = [c for c in b.calls_to("Iterator::next") if (lambda e: e and is_call(e[0], ["get_metric"]))(elem_of(("field", ("downcast", c.result_term(), "Some"), "0")))]
     stop = [mnext[0].bb] if mnext else []
-    targets = list(arms.values()) + ([other] if other is not None else [])
+    regions = arm_regions(b, f, sw, arms, other, stop)
     for name, tgt in sorted(arms.items()):
-        reg = exclusive_region(b, tgt, targets, stop)
+        reg = regions.get(name, set())
         got = sorted({strip_generics(c.callee).split("::")[-1] for c in b.calls() if c.bb in reg and c.matches(list(PAYLOAD_GETTERS.values()))})
         want = PAYLOAD_GETTERS.get(name)
         if name == "UNTYPED":
